@@ -278,9 +278,11 @@ class Emitter:
     def s_CompoundStmt(self, n, ind):
         return ind + '{\n' + ''.join(self.s(c, ind + '  ') for c in self.kids(n)) + ind + '}\n'
 
-    def body(self, n, ind):
-        if n['kind'] == 'CompoundStmt': return self.s(n, ind)
-        return ind + '{\n' + self.s(n, ind + '  ') + ind + '}\n'
+    def body(self, n, ind, loop=None):
+        mark = (ind + '  /*@BODYBEGIN %d@*/\n' % loop) if loop is not None else ''
+        if n['kind'] == 'CompoundStmt':
+            return ind + '{\n' + mark + ''.join(self.s(c, ind + '  ') for c in self.kids(n)) + ind + '}\n'
+        return ind + '{\n' + mark + self.s(n, ind + '  ') + ind + '}\n'
 
     def s_DeclStmt(self, n, ind):
         out = self.line(n, ind)
@@ -320,11 +322,11 @@ class Emitter:
 
     def s_WhileStmt(self, n, ind):
         c = self.kids(n); m = self.loopmark(); k = self.loops - 1
-        return self.line(n, ind) + ind + '/*@BEFORELOOP %d@*/\n' % k + ind + 'while (' + self.e(c[0]) + ') ' + m + '\n' + self.body(c[1], ind) + ind + '/*@AFTERLOOP %d@*/\n' % k
+        return self.line(n, ind) + ind + '/*@BEFORELOOP %d@*/\n' % k + ind + 'while (' + self.e(c[0]) + ') ' + m + '\n' + self.body(c[1], ind, k) + ind + '/*@AFTERLOOP %d@*/\n' % k
 
     def s_DoStmt(self, n, ind):
         c = self.kids(n); m = self.loopmark(); k = self.loops - 1
-        return self.line(n, ind) + ind + '/*@BEFORELOOP %d@*/\n' % k + ind + 'do ' + m + '\n' + self.body(c[0], ind) + ind + 'while (' + self.e(c[1]) + ');\n' + ind + '/*@AFTERLOOP %d@*/\n' % k
+        return self.line(n, ind) + ind + '/*@BEFORELOOP %d@*/\n' % k + ind + 'do ' + m + '\n' + self.body(c[0], ind, k) + ind + 'while (' + self.e(c[1]) + ');\n' + ind + '/*@AFTERLOOP %d@*/\n' % k
 
     def s_ForStmt(self, n, ind):
         c = n['inner']  # init, condvar, cond, inc, body ({} placeholders when absent)
@@ -338,12 +340,12 @@ class Emitter:
                 cond = self.e(c[2]) if c[2].get('kind') else ''
                 inc = self.e(c[3]) if c[3].get('kind') else ''
                 m = self.loopmark(); k = self.loops - 1
-                return self.line(n, ind) + ind + '{ ' + ' '.join(l.strip() for l in lines) + '\n' + ind + '/*@BEFORELOOP %d@*/\n' % k + ind + 'for (; ' + cond + '; ' + inc + ') ' + m + '\n' + self.body(c[4], ind) + ind + '/*@AFTERLOOP %d@*/\n' % k + ind + '}\n'
+                return self.line(n, ind) + ind + '{ ' + ' '.join(l.strip() for l in lines) + '\n' + ind + '/*@BEFORELOOP %d@*/\n' % k + ind + 'for (; ' + cond + '; ' + inc + ') ' + m + '\n' + self.body(c[4], ind, k) + ind + '/*@AFTERLOOP %d@*/\n' % k + ind + '}\n'
         if c[1].get('kind'): raise Unsupported('for with condition variable')
         cond = self.e(c[2]) if c[2].get('kind') else ''
         inc = self.e(c[3]) if c[3].get('kind') else ''
         m = self.loopmark(); k = self.loops - 1
-        return self.line(n, ind) + ind + '/*@BEFORELOOP %d@*/\n' % k + ind + 'for (' + init + ' ' + cond + '; ' + inc + ') ' + m + '\n' + self.body(c[4], ind) + ind + '/*@AFTERLOOP %d@*/\n' % k
+        return self.line(n, ind) + ind + '/*@BEFORELOOP %d@*/\n' % k + ind + 'for (' + init + ' ' + cond + '; ' + inc + ') ' + m + '\n' + self.body(c[4], ind, k) + ind + '/*@AFTERLOOP %d@*/\n' % k
 
     def s_ReturnStmt(self, n, ind):
         c = self.kids(n)
